@@ -50,6 +50,8 @@ def gen_output_src(r):
     if r.random() < 0.5:
         parts.append("epochs = 5\n")
     parts.append("threshold: float = 0.25\nlabel = 'x'\n")
+    if r.random() < 0.3:
+        parts.append("def fit(epochs=2, lr=3):\n    return lr\n")  # a module-level namesake of the method, before its class
     parts.append(
         "class Trainer(object):\n    momentum: float = 0.9\n    optimiser: str = 'sgd'\n    other = 1\n"
         + ("    def fit(self, epochs: int = 3, lr: float = 0.1, *, shuffle: bool = True):\n        return epochs\n" if r.random() < 0.8 else "")
@@ -57,7 +59,7 @@ def gen_output_src(r):
     if r.random() < 0.5:
         parts.append("class Other(object):\n    momentum: int = 1\n    def fit(self, epochs=1):\n        return epochs\n")
     parts.append("def run(epochs: int = 1, lr: float = 0.5, *, shuffle: bool = False):\n    return epochs\n")
-    if r.random() < 0.4:
+    if r.random() < 0.4 and not any(x.startswith("def fit(") for x in parts):
         parts.append("def fit(epochs=2, lr=3):\n    return lr\n")
     src = "".join(parts)
     if r.random() < 0.3:
@@ -124,6 +126,25 @@ class C14(Prop):
                 yield d
 
     # ---- run the real thing on files ---------------------------------------------------------------
+    def run_twice_eval(self, c):
+        """eval mode, same input path twice with the input edited in between: the second call must see the edit"""
+        d = tempfile.mkdtemp(prefix="c14h")
+        try:
+            ip, op = os.path.join(d, "input.py"), os.path.join(d, "output.py")
+            outs = []
+            for src in (INPUT_SRC, INPUT_SRC.replace('choices = ("adam", "sgd")', 'choices = ("rmsprop",)').replace("sizes = [1, 2, 3]", "sizes = [7]")):
+                with open(ip, "w") as f:
+                    f.write(src)
+                with open(op, "w") as f:
+                    f.write(c["output"])
+                self.SP.sync_properties(input_eval=True, input_filename=ip, input_params=[".".join(p[0]) for p in c["pairs"]],
+                                        output_filename=op, output_params=[".".join(p[1]) for p in c["pairs"]], output_param_wrap=None)  # fmt: skip
+                with open(op) as f:
+                    outs.append(f.read())
+            return outs
+        finally:
+            shutil.rmtree(d, ignore_errors=True)
+
     def run_real(self, c):
         d = tempfile.mkdtemp(prefix="c14")
         try:
@@ -172,6 +193,9 @@ class C14(Prop):
         if i_after != INPUT_SRC:
             fails.append({"what": "the input file was modified"})
         in_tree, out_tree = ast.parse(INPUT_SRC), ast.parse(c["output"])
+        if any(len(resolve(in_tree.body, il)) > 1 or len(resolve(out_tree.body, ol)) > 1 for il, ol in c["pairs"]):
+            run.count("oracle:ambiguous-address-skipped")
+            return fails
         resolvable = all(len(resolve(in_tree.body, il)) == 1 and len(resolve(out_tree.body, ol)) == 1 for il, ol in c["pairs"])
         cls = classify_case(c, in_tree, out_tree)
         run.count("oracle:" + (cls or ("in-domain" if resolvable else "unresolvable-address")))
@@ -210,6 +234,13 @@ class C14(Prop):
             got_ann = ast.unparse(new.annotation) if getattr(new, "annotation", None) is not None else None
             if want_ann is not None and got_ann != want_ann:
                 fails.append({"what": "addressed node does not carry the input's (wrapped) annotation", "pair": [il, ol], "want": want_ann, "got": got_ann, "_class": cls})
+        if c["eval"] and cls is None and not fails:
+            try:
+                first, second = self.run_twice_eval(c)
+                if "'rmsprop'" not in second and "Literal[7]" not in second:
+                    fails.append({"what": "a second call on the same input path does not see the edited input", "second": second[:600], "_class": None})
+            except Exception as e:
+                fails.append({"what": "second call on the same input path raised", "exc": exc_kind(e), "_class": None})
         return fails
 
     def classify(self, c, fl):
@@ -277,11 +308,15 @@ def classify_case(c, in_tree, out_tree):
     ins = [tuple(p[0]) for p in c["pairs"]]
     if c["wrap"] is not None and len(set(ins)) < len(ins):
         return "C14-wrap-applied-again-when-an-input-address-repeats"
+    rewrite_side = ("C15-D12-nesting-deeper-than-two", "C15-D13-function-node-never-replaced", "C15-D25-string-constant-equals-segment")
     for il, ol in c["pairs"]:
-        for tree, loc in ((in_tree, il), (out_tree, ol)):
-            f = c15_classify({"search": loc}, tree, resolve(tree.body, loc))
-            if f:
-                return f.replace("C15-", "C14-")
+        f = c15_classify({"search": il}, in_tree, resolve(in_tree.body, il))
+        if f:
+            return f.replace("C15-", "C14-")
+        # the output side is addressed by RewriteAtQuery alone: only its own recorded findings apply there
+        f = c15_classify({"search": ol}, out_tree, resolve(out_tree.body, ol))
+        if f in rewrite_side:
+            return f.replace("C15-", "C14-")
     return None
 
 
